@@ -71,8 +71,12 @@ impl PoolInner {
         if self.shutdown.load(Ordering::Relaxed) {
             return;
         }
+        #[cfg(folo_verif)]
+        crate::__verif::point("ensure/after-shutdown-load");
 
         let state = self.registry.get_or_init(processor_id);
+        #[cfg(folo_verif)]
+        crate::__verif::point("ensure/after-get-or-init");
 
         // Acquire on failure to synchronize with the Release on successful exchange.
         // AcqRel on success ensures:
@@ -139,6 +143,8 @@ impl PoolInner {
             hook();
         }
 
+        #[cfg(folo_verif)]
+        crate::__verif::point("ensure/before-handle-lock");
         let mut worker_handles = self.worker_handles.lock().expect(NEVER_POISONED);
 
         // Re-check shutdown flag under the lock to avoid race condition where
@@ -167,9 +173,13 @@ impl PoolInner {
         // We use Release to ensure this store is visible to ensure_workers_spawned
         // when it acquires the lock.
         self.shutdown.store(true, Ordering::Release);
+        #[cfg(folo_verif)]
+        crate::__verif::point("shutdown/flag-stored");
 
         // Signal all existing workers to exit.
         self.registry.signal_shutdown_all();
+        #[cfg(folo_verif)]
+        crate::__verif::point("shutdown/signalled");
 
         // We take the handles out of the mutex, ensuring that no other thread can
         // access them. Because we set the shutdown flag above, we know that
@@ -193,6 +203,8 @@ impl PoolInner {
                 panic::resume_unwind(payload);
             }
         }
+        #[cfg(folo_verif)]
+        crate::__verif::point("shutdown/joined");
     }
 }
 
